@@ -10,6 +10,8 @@ H.append({"name":"H_overlay","tiers":Q,"scale":"w4","bounds":"window W=4, thresh
   "param_sets":grid(range(0,11,2),range(0,11),[(0,0,0)])+grid([0,3,6,9],[0,2,5,7,10],[(1,2,0),(3,1,1),(5,1,2)])})
 H.append({"name":"H_overlay","tiers":Q,"scale":"w8","bounds":"W=8, T=2: old,new in {0,5,9,10}, single write and 3-byte writes with flush after each and resume after the 2nd flush",
   "param_sets":grid([0,5,9,10],[0,5,9,10],[(0,0,0),(3,1,2)])})
+H.append({"name":"H_overlay","tiers":Q,"scale":"w4","bounds":"W=4,T=1: a session resumed from a checkpoint taken before the first write (and for an empty new file), old,new in 0..5",
+  "param_sets":[dict(p,pre=1) for p in grid(range(0,6),range(0,6),[(0,0,0),(2,1,1)])]})
 H.append({"name":"H_overlay","tiers":T,"scale":"w4","bounds":"W=4,T=1: every old,new in 0..2W+3, chunk in {1,2,3,5,all}, flush in {0,1,2}, resume in {0,1,2}","max_seconds":1200,
   "param_sets":grid(range(0,12),range(0,12),[(c,f,r) for c in (0,1,2,3,5) for f in (0,1,2) for r in (0,1,2) if not (f==0 and r>0)])})
 H.append({"name":"H_overlay","tiers":T,"scale":"w6","bounds":"W=6,T=1: old,new 0..W+3, chunk in {1,4,7,all}","max_seconds":1200,
